@@ -34,13 +34,15 @@ Record flags := mkflags {
                        (fixed 95b0af2)                                                                    *)
   f_always : bool;  (* startNCP starts IPCP even when the session owns no usable address (LNS before ce9ad2f;
                        PPPoE starts it only with a usable address since 24c9504)                          *)
-  f_restore : bool  (* installInMemoryState restores IPCP to Opened without SetPeerAddress: the restored
-                       session's IPCP has nothing assigned                                                *)
+  f_restore : bool; (* installInMemoryState restores IPCP to Opened without SetPeerAddress (fixed 8205ad2)   *)
+  f_rguard : bool   (* installInMemoryState restores IPCP whenever the checkpointed address is non-nil, even
+                       when it is not a usable IPv4 address (OPEN)                                        *)
 }.
-Definition repaired  : flags := mkflags false false false false false false.
-Definition defective : flags := mkflags true true true true false false.     (* pkg/ppp + PPPoE before the fixes *)
-Definition lns_found : flags := mkflags false true true false true false.     (* LNS before ce9ad2f *)
-Definition def_restore : flags := mkflags false false false false false true.
+Definition repaired  : flags := mkflags false false false false false false false.
+Definition defective : flags := mkflags true true true true false false false.   (* pkg/ppp + PPPoE before the fixes *)
+Definition lns_found : flags := mkflags false true true false true false false.   (* LNS before ce9ad2f *)
+Definition def_restore : flags := mkflags false false false false false true false. (* before 8205ad2 *)
+Definition def_rguard : flags := mkflags false false false false false false true.   (* /repo HEAD *)
 
 (* ---- net.IP ---- *)
 Definition v4prefix : bytes := [0;0;0;0;0;0;0;0;0;0;255;255]%N.
@@ -537,9 +539,15 @@ Definition sess_start (fl : flags) (ow : owner) (aaa : option bytes) (orc : orac
    address: initPPP (fresh IPCP object), FSM.Restore (straight to Opened, nothing sent), ipcpOpen = true.
    Repaired: the checkpointed address is installed as the assignment first (SetPeerAddress, SetDNS). *)
 Definition sess_restore (fl : flags) (addr : bytes) (dns1 dns2 : option bytes) : sess :=
-  let c := if f_restore fl then mk_ipcp_cfg None None
-           else mk_ipcp_cfg (Some addr) (Some (dns1, dns2)) in
-  mksess PPPoE c 9 ipeer0 (Some addr) true [].
+  if f_restore fl then
+    (* before 8205ad2: nothing assigned; guard "address != nil" *)
+    mksess PPPoE (mk_ipcp_cfg None None) 9 ipeer0 (Some addr) true []
+  else if f_rguard fl || usable (Some addr) then
+    (* 8205ad2: SetPeerAddress, SetDNS, Restore.  f_rguard: the guard is still "address != nil" *)
+    mksess PPPoE (mk_ipcp_cfg (Some addr) (Some (dns1, dns2))) 9 ipeer0 (Some addr) true []
+  else
+    (* repaired guard: an unusable checkpointed address does not restore IPCP and is dropped *)
+    mksess PPPoE (mk_ipcp_cfg None None) 0 ipeer0 None false [].
 
 (* callbacks LayerUp = onIPCPUp, LayerDown = onIPCPDown *)
 Definition on_act (fl : flags) (p : ipcp_peer) (st : option bytes * bool) (a : act) : option bytes * bool :=
@@ -573,6 +581,16 @@ Definition rtr_event (st : N) (id : N) : list act * N :=
   | _ => ([], st)
   end%N.
 
+(* FSM.Down() (fsm.go:141): what the NCPs receive from onLCPDown when LCP leaves Opened (PPPoE, 8b06a36) *)
+Definition down_event (st : N) : list act * N :=
+  match st with
+  | 2 | 4 => ([], 0)
+  | 3 => ([], 1)                      (* tls *)
+  | 5 | 6 | 7 | 8 => ([], 1)
+  | 9 => ([Tld], 1)
+  | _ => ([], st)
+  end%N.
+
 Inductive sev :=
 | EvReq (id : N) (wire : bytes)     (* the subscriber's Configure-Request *)
 | EvAck                             (* the subscriber acknowledges our last Configure-Request verbatim *)
@@ -583,14 +601,24 @@ Inductive sev :=
                                        by rcaEvent/rcnEvent before the handler runs *)
 | EvTermReq (id : N)                (* the subscriber's Terminate-Request *)
 | EvStoppingTimeout                 (* the restart timer expires in Stopping (restart counter 0 after zrc): TO- *)
+| EvDown                            (* the subscriber renegotiates LCP: LCP leaves Opened, onLCPDown.  PPPoE sends
+                                       FSM.Down() to IPCP (and IPv6CP); the LNS owner leaves the NCPs alone *)
 | EvReauth (aaa : option bytes) (orc : oracle).
-                                    (* LCP renegotiated, authentication repeated: extractIPFromAttributes with
-                                       the new AAA answer and startNCP run again on the same session *)
+                                    (* re-authentication as production runs it: LCP renegotiated (EvDown), LCP up
+                                       again, authentication repeated, extractIPFromAttributes with the new AAA
+                                       answer and startNCP run again on the same session *)
 
 Definition sess_fsm_only (fl : flags) (s : sess) (c' : ipcp_cfg) (r : list act * N) : sess * list act :=
   let (a, st') := r in
   let (ad, op) := fold_left (on_act fl (s_peer s)) a (s_addr s, s_open s) in
   (mksess (s_owner s) c' st' (s_peer s) ad op (next_req c' a (s_lastreq s)), a).
+
+(* onLCPDown as the NCP sees it *)
+Definition sess_down (fl : flags) (s : sess) : sess * list act :=
+  match s_owner s with
+  | PPPoE => sess_fsm_only fl s (s_cfg s) (down_event (s_fsm s))
+  | LNS => (s, [])
+  end.
 
 Definition sess_step (fl : flags) (s : sess) (e : sev) : sess * list act :=
   match e with
@@ -606,10 +634,13 @@ Definition sess_step (fl : flags) (s : sess) (e : sev) : sess * list act :=
   | EvTermReq id => sess_fsm_only fl s (s_cfg s) (rtr_event (s_fsm s) id)
   | EvStoppingTimeout =>
       sess_fsm_only fl s (s_cfg s) (if N.eqb (s_fsm s) 5 then ([], 3%N) else ([], s_fsm s))
+  | EvDown => sess_down fl s
   | EvReauth aaa orc =>
-      (* the session address is kept unless AAA delivers a new one; then startNCP again *)
-      let addr := match extract_ip fl aaa with Some x => Some x | None => s_addr s end in
-      start_ncp fl (s_owner s) (s_cfg s) (s_fsm s) (s_peer s) addr (s_open s) (s_lastreq s) orc
+      (* onLCPDown first; the session address is kept unless AAA delivers a new one; then startNCP again *)
+      let (s1, a1) := sess_down fl s in
+      let addr := match extract_ip fl aaa with Some x => Some x | None => s_addr s1 end in
+      let (s2, a2) := start_ncp fl (s_owner s1) (s_cfg s1) (s_fsm s1) (s_peer s1) addr (s_open s1) (s_lastreq s1) orc in
+      (s2, a1 ++ a2)
   end.
 
 Fixpoint sess_run (fl : flags) (s : sess) (es : list sev) : sess :=
@@ -629,7 +660,9 @@ Record v6sess := mkv6s {
   vs_open : bool            (* ipv6cpOpen *)
 }.
 Inductive v6ev :=
-| V6Start (iid : bytes)                                   (* startNCP (first time or on re-authentication) *)
+| V6Start (iid : bytes)                                   (* startNCP; on a re-authentication onLCPDown has sent
+                                                             Down first (a no-op in Initial, i.e. the first time) *)
+| V6Down                                                  (* LCP renegotiation: onLCPDown -> FSM.Down() *)
 | V6Req (id : N) (wire : bytes) (oracle : list bytes)     (* the subscriber's Configure-Request *)
 | V6Echo (id : N) (oracle : list bytes)                   (* ... proposing exactly what our last request carried *)
 | V6Ack                                                   (* our last request acknowledged verbatim *)
@@ -652,7 +685,11 @@ Definition v6sess_step (s : v6sess) (e : v6ev) : v6sess * list act :=
     let '(a, st', p') := ipv6cp_input (vo_local o) (vs_fsm s) (vo_peer o) orc id wire in
     fin (mkv6obj (vo_local o) (vo_rej o) p') (a, st') in
   match e with
-  | V6Start m => fin (mkv6obj m (vo_rej o) (vo_peer o)) (up_open (vs_fsm s))
+  | V6Start m =>
+      let (a1, st1) := down_event (vs_fsm s) in
+      let (a2, st2) := up_open st1 in
+      fin (mkv6obj m (vo_rej o) (vo_peer o)) (a1 ++ a2, st2)
+  | V6Down => fin o (down_event (vs_fsm s))
   | V6Req id wire orc => req id wire orc
   | V6Echo id orc => req id (serialize_options (vs_last s)) orc
   | V6Ack => fin (fold_left v6_learn_opt (vs_last s) o) (rca_event (vs_fsm s) 0)
